@@ -74,7 +74,15 @@ func checkAcl(c *core.Ctx) {
 	// order independence: no verdict from inside the scan
 	early := 0
 	for _, rs := range core.ReturnSites(fn) {
-		if !loop.body[rs.Ret.Block()] || !core.IsNilConst(rs.Results[1]) {
+		// a return block is never part of the natural loop (it cannot reach the back edge): it leaves from inside the
+		// scan when a body block other than the header dominates it
+		inside := false
+		for bb := range loop.body {
+			if bb != loop.header && bb.Dominates(rs.Ret.Block()) {
+				inside = true
+			}
+		}
+		if !inside || !core.IsNilConst(rs.Results[1]) {
 			continue
 		}
 		early++
